@@ -266,13 +266,18 @@ def c03_8(ctx: Ctx):
         if len(rets) != 1:
             raise AnalysisError(f"{fn}: single return expected")
         for label, typ in ((None, None), ("L", "Fallthrough"), ("L", "Call"), ("L", "Return"), ("L", "Branch")):
-            env = {"edge.label": label, "edge.label.type": typ}
+            env = {"edge.label": label}
+            if label is not None:
+                env["edge.label.type"] = typ
             for k in ("Fallthrough", "Call", "Return", "Branch"):
                 env[f"gtirb.Edge.Type.{k}"] = k
                 env[f"gtirb.EdgeType.{k}"] = k
             try:
                 got = bool(minieval(rets[0].value, env))
             except Unknown as exc:
+                if label is None and "edge.label.type" in str(exc):
+                    ctx.fail(fi, rets[0], f"{fn}(label=None)", "reads edge.label.type of an unlabelled edge (AttributeError): the None test no longer comes first", key=f"C03.8::{fn}::NoneNone")
+                    continue
                 raise AnalysisError(f"{fn} not interpretable: {exc}")
             want = label is not None and typ == kind
             ctx.check(got == want, fi, rets[0], f"{fn}(label={label}, type={typ}) == {want}",
